@@ -54,6 +54,16 @@ type c02Env struct {
 	m       *mesh.Mesh
 	maxHops int
 	stop    func()
+	burst   bool // every socket sends large distinct payloads back to back to one fixed socket on another node
+}
+
+var burstLengths = []int{4096, 16384, 4097, 8192, 12000, 16383, 5000}
+
+func burstPayload(rng *rand.Rand, k int) []byte {
+	b := make([]byte, burstLengths[k%len(burstLengths)])
+	_, _ = rng.Read(b)
+
+	return b
 }
 
 type sendRec struct {
@@ -125,6 +135,16 @@ func runTraffic(res *Result, col *collector, tw *traceWriter, env *c02Env, rng *
 					d = socks[(si+1)%len(socks)]
 				}
 				p := makePayload(r, si*7+k)
+				if env.burst {
+					// one flow per socket, to a socket of another node (the further the better: origin and transit nodes serialise)
+					for j := 1; j <= len(socks); j++ {
+						d = socks[(si+j*len(socks)/2+j-1)%len(socks)]
+						if d.Node != s.Node {
+							break
+						}
+					}
+					p = burstPayload(r, si+k)
+				}
 				rec := sendRec{s.Node, s.Svc, d.Node, d.Svc, shaFull(p), len(p)}
 				mu.Lock()
 				sends = append(sends, rec)
@@ -490,6 +510,28 @@ func cmdC02(args []string) {
 		col.Reset()
 	}
 
+	// (2b) bursts: every socket sends large (4 KiB .. MTU) distinct payloads back to back over origin and transit nodes
+	for i, t := range []topo{chainTopo(3), starTopo} {
+		if res.tooMany() {
+			break
+		}
+		env, err := memnetEnv(t, rng, 5, *seed*100+50+int64(i))
+		if err != nil {
+			res.inconclusive("%v", err)
+
+			continue
+		}
+		env.burst, env.name = true, t.Name+"-burst"
+		btw := tw
+		if i > 0 {
+			btw = nil // one burst segment is enough for the trace
+		}
+		runTraffic(res, col, btw, env, rng, per*3, false)
+		res.count("scenarios_burst")
+		env.stop()
+		col.Reset()
+	}
+
 	// (3) stream back-ends: real TCP on loopback; netMessageConn with TLC-derived and random re-chunking
 	st := &relayStats{}
 	kinds := []string{"tcp", "rechunk-tlc", "rechunk-random"}
@@ -515,6 +557,11 @@ func cmdC02(args []string) {
 			n = len(pats)/8 + 1
 		}
 		runTraffic(res, col, tw, env, rng, n, false)
+		if kind == "tcp" && !res.tooMany() {
+			env.burst, env.name = true, "tcp-burst"
+			runTraffic(res, col, nil, env, rng, per*4, false)
+			res.count("scenarios_burst")
+		}
 		env.stop()
 		col.Reset()
 	}
